@@ -6,7 +6,7 @@
    instanceStartCtx (a child); runAwaitHandle.awaitRun receives the start result and the run results
    of the instances and calls
      - instanceStartCancel()  when an instance comes back "out of ammo" while instances are still
-                              being started,
+                              being started (re-read from the source: translate awaitrun, Gen/AwaitRunGen.v),
      - runCancel()            in checkAllInstancesAreFinished: start awaited and awaited >= started.
    The aggregator (phout: Run) writes what is queued, and when its context is done drains the queue,
    flushes and returns; a sample reported after that is never written.
@@ -90,6 +90,16 @@ Fixpoint count_awaited (l : list ist) : nat := match l with [] => 0 | s :: r => 
 Definition set_insts (w : eworld) (l : list ist) : eworld :=
   {| w_ammo := w_ammo w; w_tostart := w_tostart w; w_insts := l; w_fired := w_fired w; w_reported := w_reported w |}.
 
+(* the two cancel functions of the run handle *)
+Inductive cancel_call := CcStart | CcRun.
+Definition apply_cancel (c : ectl) (k : cancel_call) : ectl :=
+  match k with
+  | CcStart => {| c_start_cancelled := true; c_run_cancelled := c_run_cancelled c; c_start_awaited := c_start_awaited c;
+                  c_started := c_started c; c_awaited := c_awaited c |}
+  | CcRun => {| c_start_cancelled := c_start_cancelled c; c_run_cancelled := true; c_start_awaited := c_start_awaited c;
+                c_started := c_started c; c_awaited := c_awaited c |}
+  end.
+
 (* checkAllInstancesAreFinished *)
 Definition check_all (c : ectl) : ectl :=
   if c_start_awaited c && (c_started c <=? c_awaited c)
@@ -97,17 +107,15 @@ Definition check_all (c : ectl) : ectl :=
           c_started := c_started c; c_awaited := c_awaited c |}
   else c.
 
-(* the "out of ammo" branch of awaitRun.  [ooa_cancels_run = false] is engine.go: only the instance start
-   is cancelled; [true] is the variant that cancels the whole run there. *)
-Definition on_out_of_ammo (ooa_cancels_run : bool) (c : ectl) : ectl :=
-  if c_start_awaited c then c
-  else if ooa_cancels_run
-  then {| c_start_cancelled := c_start_cancelled c; c_run_cancelled := true; c_start_awaited := c_start_awaited c;
-          c_started := c_started c; c_awaited := c_awaited c |}
-  else {| c_start_cancelled := true; c_run_cancelled := c_run_cancelled c; c_start_awaited := c_start_awaited c;
-          c_started := c_started c; c_awaited := c_awaited c |}.
+(* the "out of ammo" branch of awaitRun: `if !ah.isStartFinished() { CALLS }`.  [ooa] = CALLS, the cancel functions
+   called there; engine.go has [engine_ooa]: only the instance start is cancelled. *)
+Definition on_out_of_ammo (ooa : list cancel_call) (c : ectl) : ectl :=
+  if c_start_awaited c then c else fold_left apply_cancel ooa c.
+Definition engine_ooa : list cancel_call := [CcStart].
+Definition no_run_cancel (ooa : list cancel_call) : bool :=
+  forallb (fun k => match k with CcStart => true | CcRun => false end) ooa.
 
-Definition estep (ooa_cancels_run : bool) (st : estate) (e : eev) : option estate :=
+Definition estep (ooa : list cancel_call) (st : estate) (e : eev) : option estate :=
   let w := e_w st in let c := e_c st in let a := e_a st in
   match e with
   | EStart =>
@@ -179,16 +187,16 @@ Definition estep (ooa_cancels_run : bool) (st : estate) (e : eev) : option estat
       | Some (IReturned r) =>
           let c1 := {| c_start_cancelled := c_start_cancelled c; c_run_cancelled := c_run_cancelled c;
                        c_start_awaited := c_start_awaited c; c_started := c_started c; c_awaited := S (c_awaited c) |} in
-          let c2 := match r with IrOutOfAmmo => on_out_of_ammo ooa_cancels_run c1 | _ => c1 end in
+          let c2 := match r with IrOutOfAmmo => on_out_of_ammo ooa c1 | _ => c1 end in
           Some {| e_w := set_insts w (upd i IAwaited (w_insts w)); e_c := check_all c2; e_a := a |}
       | _ => None
       end
   end.
 
-Fixpoint erun (ooa_cancels_run : bool) (st : estate) (evs : list eev) : option estate :=
+Fixpoint erun (ooa : list cancel_call) (st : estate) (evs : list eev) : option estate :=
   match evs with
   | [] => Some st
-  | e :: r => match estep ooa_cancels_run st e with Some st' => erun ooa_cancels_run st' r | None => None end
+  | e :: r => match estep ooa st e with Some st' => erun ooa st' r | None => None end
   end.
 
 (* the run is over: the pool's await loop has everything but provider/aggregator, the aggregator has returned *)
@@ -197,9 +205,6 @@ Definition eover (st : estate) : bool :=
 
 (* requests fired in a run *)
 Definition fired_requests (st : estate) : nat := fold_right (fun s n => shot_requests s + n) 0 (w_fired (e_w st)).
-
-(* what the source says (translate phout: the functions of engine.go that call runCancel()) decides the variant *)
-Definition engine_variant (run_cancel_only_in_check : bool) : bool := negb run_cancel_only_in_check.
 
 (* a complete trace for the harness' prediction, that of a SLOW target: all [n] instances are started; in every
    round every idle instance asks the provider, the await loop takes the results that are there (and the
@@ -213,14 +218,14 @@ Fixpoint slow_rounds (n k : nat) : list eev :=
 Definition slow_trace (n k : nat) : list eev :=
   repeat EStart n ++ slow_rounds n k ++ map EAwait (seq 0 n) ++ [EStartRes; EAggrStop].
 
-Fixpoint erun_skip (v : bool) (st : estate) (evs : list eev) : estate :=
+Fixpoint erun_skip (v : list cancel_call) (st : estate) (evs : list eev) : estate :=
   match evs with
   | [] => st
   | e :: r => match estep v st e with Some st' => erun_skip v st' r | None => erun_skip v st r end
   end.
 
 (* the results of a pool of [length shots + 1] instances shooting [shots] at a slow target *)
-Definition slow_run_lines (v : bool) (shots : list shot) : list sample :=
+Definition slow_run_lines (v : list cancel_call) (shots : list shot) : list sample :=
   a_lines (e_a (erun_skip v (einit shots (S (length shots))) (slow_trace (S (length shots)) 2))).
-Definition slow_run_over (v : bool) (shots : list shot) : bool :=
+Definition slow_run_over (v : list cancel_call) (shots : list shot) : bool :=
   eover (erun_skip v (einit shots (S (length shots))) (slow_trace (S (length shots)) 2)).
